@@ -1,5 +1,6 @@
 import CprocVerif.Model.Types
 import CprocVerif.Spec.Conv
+import CprocVerif.Spec.Constraints
 
 /-! Line-protocol driver for property C05 (model of `type.c`/`targ.c`/the typing half of `expr.c`
 and the executable C11 spec predicates of `Spec/Conv.lean`).
@@ -288,7 +289,7 @@ partial def typeChk (tg : Target) (cs : Bool) : Expr → Option (Operand × Bool
       | .sizeofT t => some (o, !t.incomplete && !t.isFunc && o.ty == Spec.sizeofType)
       | .assign a b =>
         match sub a, sub b with
-        | some p, some q => some (o, p.2 && q.2 && Spec.assignOk p.1 o)
+        | some p, some q => some (o, p.2 && q.2 && Spec.assignOk p.1 o && Spec.Constraints.simpleAssign p.1.ty q.1)
         | _, _ => none
       | .opassign op a b =>
         match sub a, sub b with
